@@ -305,6 +305,42 @@ func (c *Conn) loadReq(id uint32) (*Ctx, bool) {
 	return ctx, ok
 }
 
+// takeReqsAbove removes and returns the requests on streams above last, the
+// ones a GOAWAY says the server has not processed and will not.
+func (c *Conn) takeReqsAbove(last uint32) map[uint32]*Ctx {
+	c.reqLck.Lock()
+	defer c.reqLck.Unlock()
+
+	var out map[uint32]*Ctx
+
+	for id, ctx := range c.reqQueued {
+		if id > last {
+			if out == nil {
+				out = make(map[uint32]*Ctx)
+			}
+
+			out[id] = ctx
+
+			delete(c.reqQueued, id)
+		}
+	}
+
+	return out
+}
+
+// reqCount is the number of requests still waiting for a response.
+func (c *Conn) reqCount() int {
+	c.reqLck.Lock()
+	defer c.reqLck.Unlock()
+
+	return len(c.reqQueued)
+}
+
+// ErrGoAwayUnprocessed resolves a request on a stream above the last-stream-id
+// of a GOAWAY. The server guarantees it has not acted on it, so it is safe to
+// send it again on another connection (RFC 7540 6.8).
+var ErrGoAwayUnprocessed = errors.New("the server closed the connection before processing the request")
+
 // takeAllReqs empties the table and returns what was in it, for resolving
 // everything at once when the connection ends.
 func (c *Conn) takeAllReqs() []*Ctx {
@@ -952,7 +988,10 @@ func (c *Conn) dispatch(fr *FrameHeader) bool {
 		return true
 	}
 
-	return c.state == connStateClosed && fr.Stream() == c.closeRef
+	// After a GOAWAY the connection is only kept for the requests the server
+	// may still answer: once the last of them is done there is nothing left to
+	// read for.
+	return c.state == connStateClosed && c.reqCount() == 0
 }
 
 // endsStream reports whether fr completes the response. END_STREAM is a flag
@@ -1525,13 +1564,26 @@ loop:
 			// connection, so the client must move to a fresh one.
 			atomic.StoreUint32(&c.goAway, 1)
 
-			if ga.stream == 0 {
+			// The server will not process the streams above last-stream-id,
+			// and says so: those requests fail now, with an error that tells
+			// the caller they can be sent again elsewhere. The ones at or
+			// below it may still be answered, so the connection is kept until
+			// they are, or until the server drops it.
+			if ga.stream < c.closeRef || c.state != connStateClosed {
+				c.closeRef = ga.stream
+			}
+
+			c.state = connStateClosed
+
+			for id, ctx := range c.takeReqsAbove(c.closeRef) {
+				atomic.AddInt32(&c.openStreams, -1)
+				c.deletePending(id)
+				ctx.resolve(ErrGoAwayUnprocessed)
+			}
+
+			if c.reqCount() == 0 {
 				_ = c.c.Close()
 				err = ga
-			} else {
-				// wait for the streams to complete
-				c.closeRef = ga.stream
-				c.state = connStateClosed
 			}
 
 			break loop
